@@ -32,7 +32,12 @@ def _make_unquote_part(name: str, chars: str) -> t.Callable[[str], str]:
     the meaning of a given part of a URL.
     """
     choices = "|".join(f"{ord(c):02X}" for c in sorted(chars))
-    pattern = re.compile(f"((?:%(?:{choices}))+)", re.I)
+    # A quoted hex digit that follows a stray percent sign stays quoted as well,
+    # otherwise unquoting it would complete a new percent escape.
+    hexdig = "3[0-9]|[46][1-6]"
+    pattern = re.compile(
+        f"((?:%(?:{choices})|(?<=%)%(?:{hexdig})|(?<=%[0-9A-F])%(?:{hexdig}))+)", re.I
+    )
 
     def _unquote_partial(value: str) -> str:
         parts = iter(pattern.split(value))
